@@ -360,11 +360,11 @@ func TestC14(t *testing.T) {
 }
 
 type view struct {
-	name   string
-	sel    selector
-	ch     chan state.Event
-	agg    chan []state.Event
-	items  map[string]uint64 // id -> version
+	name    string
+	sel     selector
+	ch      chan state.Event
+	agg     chan []state.Event
+	items   map[string]uint64 // id -> version
 	boot    bool
 	booted  bool
 	dead    bool
